@@ -139,6 +139,12 @@ func (in *Interp) addPC(c *Term) {
 		in.addPC(c.args[1])
 		return
 	}
+	if c.op == OpBNot && c.args[0].op == OpBOr {
+		// not (a or b) = not a and not b
+		in.addPC(BNot(c.args[0].args[0]))
+		in.addPC(BNot(c.args[0].args[1]))
+		return
+	}
 	// record variable bindings implied by the conjunct
 	switch {
 	case c.op == OpEq && (c.args[0].op == OpVar) && c.args[1].op == OpConst:
